@@ -124,6 +124,20 @@ def gen_key_case(rnd):
     return gen_case(rnd)
 
 
+def gen_negated_or_case(rnd):
+    """targeted family: a single-model filter of the shape NOT ((p AND q) OR r) / NOT (p OR (q AND r)) / NOT (p OR q): the negation of a disjunction whose branch is a
+    conjunction, on data where p and q are both false for some row (so NOT p AND q differs from NOT (p AND q))"""
+    f, q = gen_case(rnd)
+    m = rnd.choice(f["models"])["name"]
+    c1, s0 = jg.jcol("c1"), jg.jcol("s0")
+    p_ = ("cmp", "=", s0, sg.lit(rnd.choice(["a", "b"])))
+    q_ = ("cmp", rnd.choice([">", ">="]), c1, sg.lit(rnd.choice([0, 1])))
+    r_ = rnd.choice([("isnull", c1), ("cmp", "=", c1, sg.lit(2)), ("cmp", "=", s0, sg.lit("c"))])
+    e = rnd.choice([("not", ("or", ("and", p_, q_), r_)), ("not", ("or", r_, ("and", p_, q_))), ("not", ("or", p_, q_)), ("not", ("and", ("or", p_, r_), q_))])
+    q = dict(q, filters=[(m, e)] + [x for x in q["filters"] if x[0] != m][:1], bare_top=True)
+    return f, q
+
+
 def gen_same_predicate_case(rnd):
     """targeted family: the SAME predicate on two (or three) different models of one query -- as segments they carry the same name and the same SQL"""
     for _ in range(40):
@@ -140,9 +154,31 @@ def gen_same_predicate_case(rnd):
     return gen_case(rnd)
 
 
+def strip_outer(t):
+    """the text without ONE pair of enclosing parentheses, when the first '(' closes at the very end"""
+    if not (t.startswith("(") and t.endswith(")")):
+        return t
+    depth, in_str = 0, False
+    for i, ch in enumerate(t):
+        if ch == "'":
+            in_str = not in_str
+        elif not in_str and ch == "(":
+            depth += 1
+        elif not in_str and ch == ")":
+            depth -= 1
+            if depth == 0 and i != len(t) - 1:
+                return t
+    return t[1:-1]
+
+
 def run_variant(f, q, variant):
     """execute the query with its filters written in one of several equivalent ways; returns sorted canonical rows"""
     from sidemantic.core.segment import Segment
+    if q.get("bare_top"):
+        # filters as users write them: NOT (...) / a OR b without an enclosing pair of parentheses
+        _fsql = lambda e, qq="": strip_outer(fsql(e, qq))
+    else:
+        _fsql = fsql
     dbm, mbm, drefs, mrefs = c02.field_names(q)
     extra = {}
     filters, segments = [], []
@@ -150,14 +186,14 @@ def run_variant(f, q, variant):
     if variant == "reversed":
         fl = fl[::-1]
     if variant in ("list", "reversed"):
-        filters = [fsql(e, m + ".") for m, e in fl]
+        filters = [_fsql(e, m + ".") for m, e in fl]
     elif variant == "conj":
-        filters = [" AND ".join(fsql(e, m + ".") for m, e in fl)]
+        filters = [" AND ".join(_fsql(e, m + ".") for m, e in fl)]
     elif variant in ("segment_model", "segment_bare"):
         # the same predicate text gets the same segment NAME on every model that carries it (a soft-delete `live` segment declared on several models)
         texts = []
         for i, (m, e) in enumerate(fl):
-            t = fsql(e, "{model}." if variant == "segment_model" else "")
+            t = _fsql(e, "{model}." if variant == "segment_model" else "")
             if t not in texts:
                 texts.append(t)
             nm = "sg%d" % texts.index(t)
@@ -214,7 +250,7 @@ def run(c):
     lib.regen_small(c, "_join_conjuncts")
     c.build_props()
     n = 120 if c.tier == "quick" else 1500
-    cases = [gen_case(c.rng) for _ in range(n)] + [gen_key_case(c.rng) for _ in range(n // 6)] + [gen_same_predicate_case(c.rng) for _ in range(n // 8)]
+    cases = [gen_case(c.rng) for _ in range(n)] + [gen_key_case(c.rng) for _ in range(n // 6)] + [gen_same_predicate_case(c.rng) for _ in range(n // 8)] + [gen_negated_or_case(c.rng) for _ in range(max(12, n // 8))]
     outs = None
     if lib.coq_make(["Proofs/C02_proofs.vo", "Model/Plan.vo"])[0]:
         try:
